@@ -18,6 +18,7 @@ import (
 	"context"
 	"fmt"
 	"reflect"
+	"sort"
 )
 
 var (
@@ -358,12 +359,23 @@ func write(ctx context.Context, oprot Protocol, tt *TypeMeta, gv reflect.Value) 
 		if err := oprot.WriteMapBegin(ctx, tt.KeyType.TypeID, tt.ValueType.TypeID, gv.Len()); err != nil {
 			return err
 		}
-		iter := gv.MapRange()
-		for iter.Next() {
-			if err := write(ctx, oprot, tt.KeyType, iter.Key()); err != nil {
+		// Go randomizes the iteration order of maps: write the entries in the
+		// order of their encoded keys so that the result is reproducible.
+		keys := gv.MapKeys()
+		encs := make([]string, len(keys))
+		for i, k := range keys {
+			mem := new(MemoryTransport)
+			if err := write(ctx, NewBinaryProtocol(mem), tt.KeyType, k); err != nil {
 				return err
 			}
-			if err := write(ctx, oprot, tt.ValueType, iter.Value()); err != nil {
+			encs[i] = mem.String()
+		}
+		sort.Sort(&encodedKeys{keys, encs})
+		for _, k := range keys {
+			if err := write(ctx, oprot, tt.KeyType, k); err != nil {
+				return err
+			}
+			if err := write(ctx, oprot, tt.ValueType, gv.MapIndex(k)); err != nil {
 				return err
 			}
 		}
@@ -400,4 +412,17 @@ func write(ctx context.Context, oprot Protocol, tt *TypeMeta, gv reflect.Value) 
 		panic(fmt.Errorf("invalid typeID: %d", tt.TypeID))
 	}
 	return nil
+}
+
+// encodedKeys sorts map keys by their binary encoding.
+type encodedKeys struct {
+	keys []reflect.Value
+	encs []string
+}
+
+func (s *encodedKeys) Len() int           { return len(s.keys) }
+func (s *encodedKeys) Less(i, j int) bool { return s.encs[i] < s.encs[j] }
+func (s *encodedKeys) Swap(i, j int) {
+	s.keys[i], s.keys[j] = s.keys[j], s.keys[i]
+	s.encs[i], s.encs[j] = s.encs[j], s.encs[i]
 }
